@@ -228,9 +228,30 @@ func (dl *dialLimiter) clearAllPeerDials(p peer.ID) {
 		delete(dl.waitingOnPeerLimit, p)
 	}
 	log.Debug("[limiter] clearing all peer dials", "peer", p)
-	// NB: the waitingOnFd list doesn't need to be cleaned out here, we will
-	// remove them as we encounter them because they are 'cancelled' at this
-	// point
+	// The exiting worker's jobs that hold a token of this peer and wait for an FD
+	// token are cancelled by now. Dropping them only "as we encounter them" (when
+	// some dial, possibly to another peer, frees an FD token) would keep the peer
+	// tokens taken until then although nobody dials this peer any more, and make
+	// new dials to it queue behind them: drop them here and return their tokens.
+	var dropped []*dialJob
+	waiting := dl.waitingOnFd[:0]
+	for _, j := range dl.waitingOnFd {
+		if j.peer == p && j.cancelled() {
+			dropped = append(dropped, j)
+			continue
+		}
+		waiting = append(waiting, j)
+	}
+	for i := len(waiting); i < len(dl.waitingOnFd); i++ {
+		dl.waitingOnFd[i] = nil // clear out memory
+	}
+	dl.waitingOnFd = waiting
+	if len(dl.waitingOnFd) == 0 {
+		dl.waitingOnFd = nil
+	}
+	for _, j := range dropped {
+		dl.freePeerToken(j)
+	}
 }
 
 // executeDial calls the dialFunc, and reports the result through the response
